@@ -1085,3 +1085,1334 @@ Proof.
   destruct (Bound c Hc) as (f & F & _). unfold value_of. rewrite F.
   unfold ser_field. rewrite (Acc c f Hc F). now destruct (vf_val f).
 Qed.
+(* ------------------------------------------------------------ enforce_order, UDT values *)
+
+(* svo_loop without the accumulator *)
+Fixpoint svo' (snc : bool) (fs : list vfield) (db : list dbfield) : result err (list cell * list dbfield) :=
+  match fs with
+  | [] => Ok ([], db)
+  | f :: fs' =>
+      match db with
+      | (n, ty) :: db' =>
+          if snc || String.eqb n (vf_name f) then
+            match ser_field (vf_ty f) (vf_val f) ty with
+            | None => Err (EFieldSerializationFailed n)
+            | Some cl => match svo' snc fs' db' with
+                         | Err e => Err e
+                         | Ok (cs, rest) => Ok (cl :: cs, rest)
+                         end
+            end
+          else if negb (vf_am f) then Err (EFieldNameMismatch (vf_name f) n)
+          else svo' snc fs' db
+      | [] =>
+          if negb (vf_am f) then Err (EValueMissingForUdtField (vf_name f))
+          else svo' snc fs' []
+      end
+  end.
+
+Lemma svo_loop_acc snc fs : forall db out,
+  svo_loop snc fs db out =
+  match svo' snc fs db with Err e => Err e | Ok (cs, rest) => Ok (out ++ cs, rest) end.
+Proof.
+  induction fs as [|f fs IH]; intros db out; cbn [svo_loop svo']; [now rewrite app_nil_r|].
+  destruct db as [|[n ty] db].
+  - destruct (negb (vf_am f)); [reflexivity|apply IH].
+  - destruct (snc || String.eqb n (vf_name f)).
+    + destruct (ser_field (vf_ty f) (vf_val f) ty) as [cl|]; [|reflexivity].
+      rewrite IH. destruct (svo' snc fs db) as [[cs rest]|e]; [|reflexivity]. now rewrite <- app_assoc.
+    + destruct (negb (vf_am f)); [reflexivity|apply IH].
+Qed.
+
+Definition ser_pair (fc : vfield * dbfield) : option cell :=
+  ser_field (vf_ty (fst fc)) (vf_val (fst fc)) (snd (snd fc)).
+
+(* with names checked and no allow_missing field, the loop accepts exactly the declared order *)
+Lemma svo_plain fs : forallb (fun f => negb (vf_am f)) fs = true -> forall db,
+  outcome_of (svo' false fs db) =
+  match names_prefix (map vf_name fs) db with
+  | None => Reject
+  | Some (p, rest) => match all_some (map ser_pair (combine fs p)) with
+                      | Some cs => Accept (cs, rest)
+                      | None => Reject
+                      end
+  end.
+Proof.
+  induction fs as [|f fs IH]; intros Ham db; [reflexivity|].
+  cbn [forallb] in Ham. apply andb_true_iff in Ham as [Hf Ham].
+  cbn [svo' map names_prefix]. destruct db as [|[n ty] db]; [now rewrite Hf|].
+  cbn [orb]. destruct (String.eqb n (vf_name f)) eqn:E; [|now rewrite Hf].
+  specialize (IH Ham db).
+  destruct (names_prefix (map vf_name fs) db) as [[p rest]|].
+  - cbn [combine map all_some]. unfold ser_pair at 1. cbn [fst snd].
+    destruct (ser_field (vf_ty f) (vf_val f) ty) as [cl|]; [|reflexivity].
+    destruct (svo' false fs db) as [[cs r]|e]; cbn [outcome_of] in *.
+    + destruct (all_some (map ser_pair (combine fs p))); [|discriminate]. now injection IH as -> ->.
+    + destruct (all_some (map ser_pair (combine fs p))); [discriminate|reflexivity].
+  - destruct (ser_field (vf_ty f) (vf_val f) ty) as [cl|]; [|reflexivity].
+    destruct (svo' false fs db) as [[cs r]|e]; cbn [outcome_of] in *; [discriminate|reflexivity].
+Qed.
+
+Lemma nonskipped_am fs : forallb (fun f => vf_skip f || negb (vf_am f)) fs = true ->
+  forallb (fun f => negb (vf_am f)) (nonskipped fs) = true.
+Proof.
+  unfold nonskipped. induction fs as [|f fs IH]; simpl; [reflexivity|].
+  intros H. apply andb_true_iff in H as [H1 H2]. destruct (vf_skip f); simpl in *; [now apply IH|].
+  rewrite H1. now apply IH.
+Qed.
+
+Lemma doc_ser_value_ordered_eq d db : doc_ser_value_ordered d db =
+  match names_prefix (map vf_name (nonskipped (vd_fields d))) db with
+  | None => Reject
+  | Some (p, rest) =>
+      if vd_forbid d && negb (is_nil rest) then Reject
+      else match all_some (map ser_pair (combine (nonskipped (vd_fields d)) p)) with
+           | Some cs => Accept cs
+           | None => Reject
+           end
+  end.
+Proof. reflexivity. Qed.
+
+Theorem ser_value_ordered_doc d db : vordered_plain d = true ->
+  outcome_of (gen_ser_value_ordered d db) = doc_ser_value_ordered d db.
+Proof.
+  rewrite doc_ser_value_ordered_eq. unfold vordered_plain, gen_ser_value_ordered. intros H.
+  apply andb_true_iff in H as [Hs Ha]. apply negb_true_iff in Hs. rewrite Hs.
+  rewrite svo_loop_acc. pose proof (svo_plain _ (nonskipped_am _ Ha) db) as P.
+  destruct (names_prefix (map vf_name (nonskipped (vd_fields d))) db) as [[p rest]|].
+  - destruct (svo' false (nonskipped (vd_fields d)) db) as [[cs r]|e]; cbn [outcome_of] in P.
+    + destruct (all_some (map ser_pair (combine (nonskipped (vd_fields d)) p))) as [cs'|]; [|discriminate].
+      injection P as -> ->. cbn [app]. destruct (vd_forbid d); cbn [andb]; [|reflexivity].
+      destruct rest as [|[n t] rest]; reflexivity.
+    + destruct (all_some (map ser_pair (combine (nonskipped (vd_fields d)) p))); [discriminate|].
+      cbn [outcome_of]. now destruct (vd_forbid d && negb (is_nil rest)).
+  - destruct (svo' false (nonskipped (vd_fields d)) db) as [[cs r]|e]; cbn [outcome_of] in P; [discriminate|reflexivity].
+Qed.
+
+(* what names_prefix says *)
+Lemma names_prefix_spec ns db p rest : names_prefix ns db = Some (p, rest) ->
+  db = p ++ rest /\ map fst p = ns.
+Proof.
+  revert db p rest; induction ns as [|n ns IH]; intros db p rest H; cbn [names_prefix] in H.
+  - injection H as <- <-. split; reflexivity.
+  - destruct db as [|[m ty] db]; [discriminate|]. destruct (String.eqb m n) eqn:E; [|discriminate].
+    destruct (names_prefix ns db) as [[p' r']|] eqn:N; [|discriminate]. injection H as <- <-.
+    destruct (IH _ _ _ N) as [-> <-]. apply String.eqb_eq in E. subst m. split; reflexivity.
+Qed.
+
+Lemma names_prefix_complete p rest : names_prefix (map fst p) (p ++ rest) = Some (p, rest).
+Proof.
+  induction p as [|[m ty] p IH]; [reflexivity|]. cbn [map fst app names_prefix].
+  now rewrite String.eqb_refl, IH.
+Qed.
+
+(* type_check, enforce_order *)
+Definition acc_pair (fc : vfield * dbfield) : bool := accepts (vf_ty (fst fc)) (snd (snd fc)).
+
+Lemma tvo_plain fs : forallb (fun f => vf_skip f || negb (vf_am f)) fs = true -> forall idx db,
+  match tvo_loop false idx fs db with Ok rest => Some rest | Err _ => None end =
+  match names_prefix (map vf_name (nonskipped fs)) db with
+  | Some (p, rest) => if forallb acc_pair (combine (nonskipped fs) p) then Some rest else None
+  | None => None
+  end.
+Proof.
+  unfold nonskipped. induction fs as [|f fs IH]; intros Ham idx db; [reflexivity|].
+  cbn [forallb] in Ham. apply andb_true_iff in Ham as [Hf Ham].
+  cbn [tvo_loop filter]. destruct (vf_skip f) eqn:Sf; cbn [negb]; [apply IH; assumption|].
+  cbn [orb] in Hf. cbn [map names_prefix]. apply negb_true_iff in Hf. rewrite Hf.
+  destruct db as [|[n ty] db]; [reflexivity|]. cbn [negb andb].
+  rewrite String.eqb_sym. destruct (String.eqb n (vf_name f)) eqn:E; cbn [negb]; [|reflexivity].
+  specialize (IH Ham (S idx) db).
+  destruct (names_prefix _ db) as [[p rest]|].
+  - cbn [combine forallb]. unfold acc_pair at 1. cbn [fst snd].
+    destruct (accepts (vf_ty f) ty); [exact IH|reflexivity].
+  - destruct (accepts (vf_ty f) ty); [exact IH|reflexivity].
+Qed.
+
+Lemma doc_typeck_value_ordered_eq d db : doc_typeck_value_ordered d db =
+  match names_prefix (map vf_name (nonskipped (vd_fields d))) db with
+  | None => false
+  | Some (p, rest) =>
+      (negb (vd_forbid d) || is_nil rest) && forallb acc_pair (combine (nonskipped (vd_fields d)) p)
+  end.
+Proof. reflexivity. Qed.
+
+Theorem typeck_value_ordered_doc d db : vordered_plain d = true ->
+  (gen_typeck_value_ordered d db = Ok tt <-> doc_typeck_value_ordered d db = true).
+Proof.
+  rewrite doc_typeck_value_ordered_eq. unfold vordered_plain, gen_typeck_value_ordered. intros H.
+  apply andb_true_iff in H as [Hs Ha]. apply negb_true_iff in Hs. rewrite Hs. cbv zeta.
+  pose proof (tvo_plain _ Ha O db) as P.
+  assert (Hreq : filter vf_required (vd_fields d) = nonskipped (vd_fields d)).
+  { clear -Ha. unfold nonskipped, vf_required. induction (vd_fields d) as [|f fs IH]; [reflexivity|].
+    cbn [forallb filter] in *. apply andb_true_iff in Ha as [H1 H2].
+    destruct (vf_skip f); cbn [negb andb orb] in *; [now apply IH|]. rewrite H1. now rewrite IH. }
+  rewrite Hreq.
+  destruct (names_prefix (map vf_name (nonskipped (vd_fields d))) db) as [[p rest]|] eqn:N.
+  - destruct (names_prefix_spec _ _ _ _ N) as [Edb Ep].
+    assert (Hlen : (List.length db <? List.length (nonskipped (vd_fields d)))%nat = false).
+    { apply Nat.ltb_ge.
+      assert (Hp : List.length (nonskipped (vd_fields d)) = List.length p).
+      { rewrite <- (map_length vf_name (nonskipped (vd_fields d))), <- Ep. apply map_length. }
+      rewrite Hp, Edb, app_length. lia. }
+    rewrite Hlen.
+    destruct (tvo_loop false 0 (vd_fields d) db) as [r|e].
+    + destruct (forallb acc_pair (combine (nonskipped (vd_fields d)) p)); [|discriminate].
+      injection P as ->. rewrite andb_true_r.
+      destruct (vd_forbid d); cbn [negb orb]; [|tauto].
+      destruct rest as [|[n t] rest]; cbn [is_nil]; split; congruence.
+    + destruct (forallb acc_pair (combine (nonskipped (vd_fields d)) p)); [discriminate|].
+      rewrite andb_false_r. split; discriminate.
+  - destruct (List.length db <? _)%nat; [split; discriminate|].
+    destruct (tvo_loop false 0 (vd_fields d) db); [discriminate|]. split; discriminate.
+Qed.
+
+(* round trip, enforce_order (any descriptor: allow_missing and skip_name_checks included) *)
+Definition rt_ok (f : vfield) (x : cell) : Prop :=
+  if vf_skip f then x = default_cell (vf_ty f)
+  else x = vf_val f \/ (vf_am f = true /\ x = default_cell (vf_ty f)).
+
+Lemma ordered_lockstep snc fs : forallb (fun f => val_ok (vf_ty f) (vf_val f)) fs = true ->
+  forall db cs rest, svo' snc (nonskipped fs) db = Ok (cs, rest) ->
+  exists xs, dvo_loop snc fs (udt_items db cs) = Ok xs /\ Forall2 rt_ok fs xs.
+Proof.
+  unfold nonskipped. induction fs as [|f fs IH]; intros Hv db cs rest H.
+  - exists []. split; [reflexivity|constructor].
+  - cbn [forallb] in Hv. apply andb_true_iff in Hv as [Hvf Hv]. cbn [filter] in H. cbn [dvo_loop].
+    destruct (vf_skip f) eqn:Sf; cbn [negb] in H.
+    + destruct (IH Hv _ _ _ H) as (xs & -> & F). eexists. split; [reflexivity|].
+      constructor; [|assumption]. unfold rt_ok. now rewrite Sf.
+    + cbn [svo'] in H. destruct db as [|[n ty] db].
+      * destruct (vf_am f) eqn:Am; cbn [negb] in H; [|discriminate].
+        destruct (IH Hv _ _ _ H) as (xs & L & F).
+        assert (cs = []) as ->.
+        { clear -H. revert H. generalize (filter (fun f => negb (vf_skip f)) fs). intros l.
+          induction l as [|g l IHl]; cbn [svo']; [congruence|]. destruct (negb (vf_am g)); [discriminate|exact IHl]. }
+        cbn [udt_items] in *. rewrite L. eexists. split; [reflexivity|].
+        constructor; [|assumption]. unfold rt_ok. rewrite Sf. right. tauto.
+      * destruct (snc || String.eqb n (vf_name f)) eqn:M.
+        -- destruct (ser_field (vf_ty f) (vf_val f) ty) as [cl|] eqn:SF; [|discriminate].
+           destruct (svo' snc _ db) as [[cs' r']|] eqn:R; [|discriminate]. injection H as <- <-.
+           apply ser_field_some in SF. subst cl. cbn [udt_items].
+           rewrite (String.eqb_sym (vf_name f) n), M. rewrite deser_back by assumption.
+           destruct (IH Hv _ _ _ R) as (xs & -> & F). eexists. split; [reflexivity|].
+           constructor; [|assumption]. unfold rt_ok. rewrite Sf. now left.
+        -- destruct (vf_am f) eqn:Am; cbn [negb] in H; [|discriminate].
+           destruct (IH Hv _ _ _ H) as (xs & L & F).
+           destruct cs as [|c0 cs]; cbn [udt_items] in *;
+             rewrite (String.eqb_sym (vf_name f) n), M, L;
+             (eexists; split; [reflexivity|]; constructor; [|assumption]; unfold rt_ok; rewrite Sf; right; tauto).
+Qed.
+
+Theorem roundtrip_value_ordered d db cells : vvals_ok d = true ->
+  gen_ser_value_ordered d db = Ok cells ->
+  exists xs, gen_deser_value_ordered d db cells = Ok xs /\ Forall2 rt_ok (vd_fields d) xs.
+Proof.
+  unfold gen_ser_value_ordered, gen_deser_value_ordered, vvals_ok. intros Hv H.
+  rewrite svo_loop_acc in H.
+  destruct (svo' (vd_snc d) (nonskipped (vd_fields d)) db) as [[cs rest]|e] eqn:S; [|discriminate].
+  cbn [app] in H.
+  assert (cells = cs) as ->.
+  { destruct (vd_forbid d); [|congruence]. destruct rest as [|[n t] r]; congruence. }
+  exact (ordered_lockstep _ _ Hv _ _ _ S).
+Qed.
+
+(* for a descriptor without allow_missing the values come back exactly *)
+Lemma rt_ok_plain fs xs : forallb (fun f => vf_skip f || negb (vf_am f)) fs = true ->
+  Forall2 rt_ok fs xs -> xs = map (fun f => if vf_skip f then default_cell (vf_ty f) else vf_val f) fs.
+Proof.
+  intros Ha F. induction F as [|f x fs xs R _ IH]; [reflexivity|].
+  cbn [forallb] in Ha. apply andb_true_iff in Ha as [H1 H2]. cbn [map]. rewrite <- (IH H2). f_equal.
+  unfold rt_ok in R. destruct (vf_skip f); [assumption|]. cbn [orb] in H1.
+  destruct R as [R|[Am _]]; [assumption|]. rewrite Am in H1. discriminate.
+Qed.
+(* ------------------------------------------------------------ rows: DeserializeRow reduces to the UDT case *)
+
+(* a row field seen as a UDT field (never allow_missing); type_check of a row = type_check of a
+   UDT value with forbid_excess_udt_fields, up to the error class *)
+Definition emb (l : rleaf) : vfield :=
+  {| vf_ident := rl_ident l; vf_rename := rl_rename l; vf_skip := rl_skip l; vf_am := false;
+     vf_dwn := rl_dwn l; vf_ty := rl_ty l; vf_val := rl_val l |}.
+
+Lemma emb_name l : vf_name (emb l) = rl_name l.
+Proof. reflexivity. Qed.
+
+Lemma rmatch_vmatch {S} n ls (st : list S) nw :
+  vmatch n (map emb ls) st nw =
+  match rmatch n ls st nw with Some (f, s, st') => Some (emb f, s, st') | None => None end.
+Proof.
+  revert st; induction ls as [|l ls IH]; intros [|s st]; try reflexivity.
+  cbn [map vmatch rmatch]. change (vf_skip (emb l)) with (rl_skip l). rewrite emb_name.
+  destruct (negb (rl_skip l) && String.eqb (rl_name l) n); [reflexivity|].
+  rewrite IH. destruct (rmatch n ls st nw) as [[[f s0] st']|]; reflexivity.
+Qed.
+
+Lemma rmatch_nonskipped {S} n ls (st : list S) nw f s st' :
+  rmatch n ls st nw = Some (f, s, st') -> rl_skip f = false.
+Proof.
+  revert st st'; induction ls as [|l ls IH]; intros [|s0 st] st' M; cbn [rmatch] in M; try discriminate.
+  destruct (negb (rl_skip l) && String.eqb (rl_name l) n) eqn:B.
+  - injection M as <- _ _. apply andb_true_iff in B as [B _]. now apply negb_true_iff in B.
+  - destruct (rmatch n ls st nw) as [[[g s1] st'']|] eqn:M'; [|discriminate].
+    injection M as <- <- _. exact (IH _ _ M').
+Qed.
+
+Definition same_class (e1 e2 : err) : Prop := (e1 = EPanic <-> e2 = EPanic).
+
+Lemma tr_tv_sim ls : forall cols flags rem idx,
+  match tr_loop ls {| tr_flags := flags; tr_remaining := rem |} idx cols,
+        tv_loop true (map emb ls) {| tv_flags := flags; tv_remaining := rem |} cols with
+  | Ok a, Ok b => tr_flags a = tv_flags b /\ tr_remaining a = tv_remaining b
+  | Err e1, Err e2 => same_class e1 e2
+  | _, _ => False
+  end.
+Proof.
+  induction cols as [|[n ty] cols IH]; intros flags rem idx.
+  - cbn. tauto.
+  - cbn [tr_loop tv_loop tr_step tv_step tr_flags tv_flags tr_remaining tv_remaining].
+    rewrite rmatch_vmatch.
+    destruct (rmatch n ls flags true) as [[[f was] flags']|] eqn:M.
+    + destruct was; [unfold same_class; split; discriminate|].
+      change (vf_ty (emb f)) with (rl_ty f).
+      destruct (accepts (rl_ty f) ty); [|unfold same_class; split; discriminate].
+      assert (R : vf_required (emb f) = true).
+      { unfold vf_required. cbn. rewrite (rmatch_nonskipped _ _ _ _ _ _ _ M). reflexivity. }
+      rewrite R. destruct (dec rem) as [r|]; [apply IH|unfold same_class; tauto].
+    + unfold same_class; split; discriminate.
+Qed.
+
+Definition rdesc_as_vdesc (ls : list rleaf) : vdesc :=
+  {| vd_ordered := false; vd_forbid := true; vd_snc := false; vd_fields := map emb ls |}.
+
+Lemma filter_emb ls : List.length (filter vf_required (map emb ls)) = List.length (filter (fun f => negb (rl_skip f)) ls).
+Proof.
+  induction ls as [|l ls IH]; [reflexivity|]. cbn [map filter]. unfold vf_required at 1. cbn.
+  rewrite andb_true_r. destruct (negb (rl_skip l)); simpl; now rewrite IH.
+Qed.
+
+Lemma typeck_row_as_value ls cols :
+  (gen_typeck_row_by_name ls cols = Ok tt <-> gen_typeck_value_by_name (rdesc_as_vdesc ls) cols = Ok tt) /\
+  (gen_typeck_row_by_name ls cols = Err EPanic <-> gen_typeck_value_by_name (rdesc_as_vdesc ls) cols = Err EPanic).
+Proof.
+  unfold gen_typeck_row_by_name, gen_typeck_value_by_name. cbn [rdesc_as_vdesc vd_fields vd_forbid].
+  rewrite filter_emb, map_map.
+  pose proof (tr_tv_sim ls cols (map (fun _ => false) ls) (List.length (filter (fun f => negb (rl_skip f)) ls)) O) as S.
+  destruct (tr_loop _ _ _ _) as [a|e1], (tv_loop _ _ _ _) as [b|e2]; try contradiction.
+  - destruct S as [_ ->]. destruct (0 <? tv_remaining b)%nat; split; split; congruence.
+  - unfold same_class in S. split; split; try discriminate; intros H; injection H as ->; f_equal; tauto.
+Qed.
+
+Lemma mem_count n db : mem n (map fst db) = true <-> (1 <= count_name n db)%nat.
+Proof.
+  induction db as [|c db IH]; [cbn; split; [discriminate|lia]|].
+  unfold mem in *. cbn [map existsb]. rewrite count_name_cons, orb_true_iff, IH.
+  rewrite (String.eqb_sym n (fst c)). destruct (String.eqb (fst c) n); split; intros H; try lia; try tauto.
+  all: try (destruct H as [H|H]; [discriminate|lia]).
+  all: try (right; lia).
+Qed.
+
+Lemma vfind_emb n ls : vfind n (map emb ls) = option_map emb (rfind n ls).
+Proof.
+  unfold vfind, rfind. induction ls as [|l ls IH]; [reflexivity|]. cbn [map find].
+  change (vf_skip (emb l)) with (rl_skip l). rewrite emb_name.
+  destruct (negb (rl_skip l) && String.eqb (rl_name l) n); [reflexivity|exact IH].
+Qed.
+
+Lemma forallb_map' {A B} (p : B -> bool) (g : A -> B) l : forallb p (map g l) = forallb (fun x => p (g x)) l.
+Proof. induction l as [|x l IH]; simpl; [reflexivity|now rewrite IH]. Qed.
+
+Lemma doc_typeck_row_as_value ls cols :
+  doc_typeck_row_by_name ls cols = doc_typeck_value_by_name (rdesc_as_vdesc ls) cols.
+Proof.
+  unfold doc_typeck_row_by_name, doc_typeck_value_by_name. cbn [rdesc_as_vdesc vd_fields vd_forbid negb orb].
+  rewrite !forallb_map'.
+  (* both sides as a conjunction of the same four facts *)
+  apply eq_true_iff_eq. rewrite !andb_true_iff, !forallb_forall. split.
+  - intros [H1 H2]. repeat split.
+    + intros l Hl. unfold vf_required. cbn. rewrite andb_true_r, negb_involutive.
+      specialize (H2 l Hl). destruct (rl_skip l); [reflexivity|]. cbn [orb] in *.
+      apply Nat.eqb_eq in H2. apply mem_count. rewrite emb_name. lia.
+    + intros l Hl. specialize (H2 l Hl). change (vf_skip (emb l)) with (rl_skip l). rewrite emb_name.
+      destruct (rl_skip l); [reflexivity|]. cbn [orb] in *. apply Nat.eqb_eq in H2. apply Nat.leb_le. lia.
+    + intros c Hc. specialize (H1 c Hc). rewrite vfind_emb. destruct (rfind (fst c) ls); [reflexivity|discriminate].
+    + intros c Hc. specialize (H1 c Hc). rewrite vfind_emb. destruct (rfind (fst c) ls); [exact H1|discriminate].
+  - intros [[[H1 H2] H3] H4]. split.
+    + intros c Hc. specialize (H3 c Hc). specialize (H4 c Hc). rewrite vfind_emb in *.
+      destruct (rfind (fst c) ls); [exact H4|discriminate].
+    + intros l Hl. specialize (H1 l Hl). specialize (H2 l Hl). unfold vf_required in H1. cbn in H1.
+      rewrite andb_true_r, negb_involutive in H1. change (vf_skip (emb l)) with (rl_skip l) in H2.
+      rewrite emb_name in *. destruct (rl_skip l); [reflexivity|]. cbn [orb] in *.
+      apply mem_count in H1. apply Nat.leb_le in H2. apply Nat.eqb_eq. lia.
+Qed.
+
+Definition rnodup (ls : list rleaf) : Prop := NoDup (map rl_name (filter (fun f => negb (rl_skip f)) ls)).
+
+Lemma rnodup_vnodup ls : rnodup ls -> vnodup (map emb ls).
+Proof.
+  unfold rnodup, vnodup, nonskipped. intros H.
+  assert (E : map vf_name (filter (fun f => negb (vf_skip f)) (map emb ls))
+              = map rl_name (filter (fun f => negb (rl_skip f)) ls)).
+  { clear. induction ls as [|l ls IH]; [reflexivity|]. cbn [map filter].
+    change (vf_skip (emb l)) with (rl_skip l). destruct (negb (rl_skip l)); cbn [map]; now rewrite IH. }
+  now rewrite E.
+Qed.
+
+Theorem typeck_row_by_name_doc ls cols : rnodup ls ->
+  (gen_typeck_row_by_name ls cols = Ok tt <-> doc_typeck_row_by_name ls cols = true) /\
+  gen_typeck_row_by_name ls cols <> Err EPanic.
+Proof.
+  intros Hnd. destruct (typeck_row_as_value ls cols) as [A B].
+  destruct (typeck_value_by_name_doc (rdesc_as_vdesc ls) cols (rnodup_vnodup _ Hnd)) as [C D].
+  rewrite doc_typeck_row_as_value. split; [now rewrite A|]. intros H. apply B in H. contradiction.
+Qed.
+Lemma vmatch_length {S} n fs (st : list S) nw f s st' :
+  vmatch n fs st nw = Some (f, s, st') -> List.length st' = List.length st.
+Proof.
+  revert st st'; induction fs as [|g fs IH]; intros [|s0 st] st' M; cbn [vmatch] in M; try discriminate.
+  destruct (negb (vf_skip g) && String.eqb (vf_name g) n).
+  - injection M as _ _ <-. reflexivity.
+  - destruct (vmatch n fs st nw) as [[[g' s1] st'']|] eqn:M'; [|discriminate].
+    injection M as <- <- <-. cbn. f_equal. exact (IH _ _ M').
+Qed.
+
+Lemma dr_dv_sim ls : forall its slots, List.length slots = List.length ls ->
+  (forall it, In it its -> rfind (fst (fst it)) ls <> None) ->
+  match dr_loop ls slots its, dv_loop (map emb ls) slots its with
+  | Ok a, Ok b => a = b
+  | Err e1, Err e2 => same_class e1 e2
+  | _, _ => False
+  end.
+Proof.
+  induction its as [|[[n ty] v] its IH]; intros slots Hl Hk; [reflexivity|].
+  cbn [dr_loop dv_loop dr_step dv_step].
+  assert (Hl' : List.length slots = List.length (map emb ls)) by now rewrite map_length.
+  destruct (vmatch n (map emb ls) slots None) as [[[f old] sl0]|] eqn:M.
+  - rewrite rmatch_vmatch in M.
+    destruct (rmatch n ls slots None) as [[[f0 old0] sl00]|] eqn:M0; [|discriminate]. injection M as <- <- <-.
+    destruct old0; [unfold same_class; tauto|].
+    change (deser_with_default (emb f0) v) with (rdeser_with_default f0 v).
+    destruct (rdeser_with_default f0 v) as [x|]; [|unfold same_class; split; discriminate].
+    destruct (vmatch n (map emb ls) slots (Some x)) as [[[f' old'] sl1]|] eqn:M1.
+    + pose proof (vmatch_length _ _ _ _ _ _ _ M1) as L1. rewrite rmatch_vmatch in M1.
+      destruct (rmatch n ls slots (Some x)) as [[[f1 old1] sl11]|]; [|discriminate]. injection M1 as _ _ <-.
+      apply IH; [congruence|]. intros it Hit. apply Hk. now right.
+    + rewrite rmatch_vmatch in M1. destruct (rmatch n ls slots (Some x)) as [[[f1 old1] sl11]|]; [discriminate|].
+      unfold same_class; tauto.
+  - exfalso. apply (vmatch_none n (map emb ls) slots None Hl') in M. rewrite vfind_emb in M.
+    apply (Hk ((n, ty), v)); [now left|]. cbn [fst]. destruct (rfind n ls); [discriminate|reflexivity].
+Qed.
+
+Lemma dr_dv_finalize ls : forall slots, dr_finalize ls slots = dv_finalize (map emb ls) slots.
+Proof.
+  induction ls as [|l ls IH]; intros [|s slots]; try reflexivity.
+  cbn [map dr_finalize dv_finalize]. change (vf_skip (emb l)) with (rl_skip l).
+  change (vf_am (emb l)) with false. change (vf_ty (emb l)) with (rl_ty l). now rewrite IH.
+Qed.
+
+Lemma udt_items_combine cols : forall cells, List.length cells = List.length cols ->
+  udt_items cols cells = combine cols cells.
+Proof.
+  induction cols as [|c cols IH]; intros [|v cells] H; simpl in *; try congruence.
+  f_equal. apply IH. congruence.
+Qed.
+
+Theorem deser_row_by_name_doc ls cols cells : rnodup ls -> List.length cells = List.length cols ->
+  doc_typeck_row_by_name ls cols = true ->
+  outcome_of (gen_deser_row_by_name ls cols cells) =
+    match all_some (map (fun f => doc_row_field_value f (combine cols cells)) ls) with
+    | Some vs => Accept vs
+    | None => Reject
+    end /\
+  gen_deser_row_by_name ls cols cells <> Err EPanic.
+Proof.
+  intros Hnd Hlen T. pose proof T as T'. rewrite doc_typeck_row_as_value in T'.
+  destruct (deser_value_by_name_doc (rdesc_as_vdesc ls) cols cells (rnodup_vnodup _ Hnd) T') as [D P].
+  unfold gen_deser_value_by_name in D, P. cbn [rdesc_as_vdesc vd_fields] in D, P.
+  rewrite udt_items_combine in D, P by assumption. rewrite map_map in D, P.
+  unfold gen_deser_row_by_name.
+  assert (Known : forall it, In it (combine cols cells) -> rfind (fst (fst it)) ls <> None).
+  { intros [c v] Hit. apply in_combine_l in Hit. cbn [fst].
+    unfold doc_typeck_row_by_name in T. apply andb_true_iff in T as [T1 _].
+    rewrite forallb_forall in T1. specialize (T1 c Hit). destruct (rfind (fst c) ls); [discriminate|discriminate]. }
+  pose proof (dr_dv_sim ls (combine cols cells) (map (fun _ => None) ls) (map_length _ _) Known) as S.
+  assert (Edoc : map (fun f => doc_row_field_value f (combine cols cells)) ls
+                 = map (fun f => doc_field_value (emb f) (combine cols cells)) ls).
+  { apply map_ext_in. intros f Hf. unfold doc_row_field_value, doc_field_value.
+    change (vf_skip (emb f)) with (rl_skip f). destruct (rl_skip f) eqn:Sf; [reflexivity|].
+    rewrite emb_name. destruct (db_cell (rl_name f) (combine cols cells)) eqn:Dc; [reflexivity|].
+    exfalso. apply db_cell_none in Dc.
+    unfold doc_typeck_row_by_name in T. apply andb_true_iff in T as [_ T2].
+    rewrite forallb_forall in T2. specialize (T2 f Hf). rewrite Sf in T2. cbn [orb] in T2. apply Nat.eqb_eq in T2.
+    assert (E : map fst (combine cols cells) = cols).
+    { clear -Hlen. revert cells Hlen. induction cols as [|c cols IH]; intros [|v cells] H; simpl in *; try congruence.
+      f_equal. apply IH. congruence. }
+    rewrite E in Dc. assert (mem (rl_name f) (map fst cols) = true) by (apply mem_count; lia). congruence. }
+  rewrite Edoc, <- (map_map emb (fun g => doc_field_value g (combine cols cells))).
+  destruct (dr_loop ls (map (fun _ => None) ls) (combine cols cells)) as [a|e1],
+           (dv_loop (map emb ls) (map (fun _ => None) ls) (combine cols cells)) as [b|e2]; try contradiction.
+  - subst b. rewrite dr_dv_finalize. split; assumption.
+  - cbn [outcome_of] in *. split; [assumption|]. unfold same_class in S. intros H. injection H as ->.
+    apply P. f_equal. tauto.
+Qed.
+(* ------------------------------------------------------------ SerializeRow, match_by_name (with flatten) *)
+
+Fixpoint pnode_ind' (P : pnode -> Prop)
+  (Hl : forall nm ty v vis, P (PLeaf nm ty v vis))
+  (Hf : forall vis sub rem, Forall P sub -> P (PFlat vis sub rem)) (p : pnode) : P p :=
+  match p with
+  | PLeaf nm ty v vis => Hl nm ty v vis
+  | PFlat vis sub rem =>
+      Hf vis sub rem ((fix go (l : list pnode) : Forall P l :=
+                         match l with
+                         | [] => Forall_nil P
+                         | x :: r => Forall_cons x (pnode_ind' P Hl Hf x) (go r)
+                         end) sub)
+  end.
+
+Definition pleaf := (string * rty * cell * bool)%type.
+Definition lname (x : pleaf) : string := fst (fst (fst x)).
+Definition lvis (x : pleaf) : bool := snd x.
+
+(* all leaves below a partial, in declaration order *)
+Fixpoint pleaves (p : pnode) : list pleaf :=
+  match p with
+  | PLeaf nm ty v vis => [(nm, ty, v, vis)]
+  | PFlat _ sub _ => flat_map pleaves sub
+  end.
+
+Definition lmark (n : string) (x : pleaf) : pleaf :=
+  let '(nm, ty, v, vis) := x in (nm, ty, v, vis || String.eqb nm n).
+Definition pmark (n : string) (ls : list pleaf) : list pleaf := map (lmark n) ls.
+Definition lfind_p (n : string) (ls : list pleaf) : option pleaf :=
+  find (fun x => String.eqb (lname x) n) ls.
+
+Definition child_unvisited (x : pnode) : bool :=
+  match x with PLeaf _ _ _ vis => negb vis | PFlat vis _ _ => negb vis end.
+Definition child_ok0 (x : pnode) : Prop :=
+  match x with PFlat xv _ xrem => (xv = true <-> xrem = O) | _ => True end.
+
+Fixpoint pwf (p : pnode) : Prop :=
+  match p with
+  | PLeaf _ _ _ _ => True
+  | PFlat _ sub rem =>
+      rem = List.length (filter child_unvisited sub) /\
+      (fix all (l : list pnode) : Prop :=
+         match l with [] => True | x :: r => (pwf x /\ child_ok0 x) /\ all r end) sub
+  end.
+
+Definition child_ok (x : pnode) : Prop := pwf x /\ child_ok0 x.
+
+Lemma pwf_flat vis sub rem :
+  pwf (PFlat vis sub rem) <-> rem = List.length (filter child_unvisited sub) /\ Forall child_ok sub.
+Proof.
+  cbn [pwf]. split; intros [H1 H2]; (split; [assumption|]).
+  - clear H1. induction sub as [|x r IH]; [constructor|]. destruct H2 as [Hx Hr]. constructor; [exact Hx|now apply IH].
+  - clear H1. induction sub as [|x r IH]; [exact I|]. inversion H2; subst. split; [assumption|now apply IH].
+Qed.
+
+Definition pdone (p : pnode) : Prop :=
+  match p with PLeaf _ _ _ vis => vis = true | PFlat _ _ rem => rem = O end.
+
+Lemma filter_nil_iff {A} (f : A -> bool) l : List.length (filter f l) = O <-> forall x, In x l -> f x = false.
+Proof.
+  induction l as [|a l IH]; simpl; [split; [intros _ x []|reflexivity]|].
+  destruct (f a) eqn:E; simpl.
+  - split; [discriminate|]. intros H. specialize (H a (or_introl eq_refl)). congruence.
+  - rewrite IH. split; intros H x; [intros [<-|Hx]; [assumption|now apply H]|intros Hx; apply H; now right].
+Qed.
+
+Lemma pdone_iff p : pwf p -> (pdone p <-> forall l, In l (pleaves p) -> lvis l = true).
+Proof.
+  induction p as [nm ty v vis|vis sub rem IH] using pnode_ind'; intros W.
+  - cbn. split; [intros -> l [<-|[]]; reflexivity|]. intros H. exact (H _ (or_introl eq_refl)).
+  - apply pwf_flat in W as [-> Ok]. cbn [pdone pleaves]. rewrite filter_nil_iff.
+    rewrite Forall_forall in IH, Ok. split.
+    + intros H l Hl. apply in_flat_map in Hl as (x & Hx & Hl). specialize (H x Hx).
+      destruct (Ok x Hx) as [Wx Cx]. apply (proj1 (IH x Hx Wx)); [|assumption].
+      destruct x as [nm ty v xv|xv xsub xrem]; cbn in *; [now apply negb_false_iff in H|].
+      apply negb_false_iff in H. now apply Cx.
+    + intros H x Hx. destruct (Ok x Hx) as [Wx Cx].
+      assert (D : pdone x). { apply (IH x Hx Wx). intros l Hl. apply H. apply in_flat_map. eauto. }
+      destruct x as [nm ty v xv|xv xsub xrem]; cbn in *; [now rewrite D|].
+      apply negb_false_iff. now apply Cx.
+Qed.
+
+Definition is_leaf_named (n : string) (x : pnode) : bool :=
+  match x with PLeaf nm _ _ _ => String.eqb nm n | PFlat _ _ _ => false end.
+
+Lemma leaf_visit_none n sub : leaf_visit n sub = None <-> forallb (fun x => negb (is_leaf_named n x)) sub = true.
+Proof.
+  induction sub as [|x r IH]; [cbn; tauto|]. cbn [leaf_visit forallb].
+  destruct x as [nm ty v vis|xv xs xr]; cbn [is_leaf_named].
+  - destruct (String.eqb nm n); cbn [negb andb]; [split; discriminate|].
+    destruct (leaf_visit n r) as [[[[t0 v0] w0] r']|]; [split; [discriminate|]|tauto].
+    intros H. apply IH in H. discriminate.
+  - cbn [negb andb]. destruct (leaf_visit n r) as [[[[t0 v0] w0] r']|]; [split; [discriminate|]|tauto].
+    intros H. apply IH in H. discriminate.
+Qed.
+
+Lemma leaf_visit_some n sub t0 v0 was sub' : leaf_visit n sub = Some (t0, v0, was, sub') ->
+  exists pre post, sub = pre ++ PLeaf n t0 v0 was :: post /\ sub' = pre ++ PLeaf n t0 v0 true :: post /\
+                   forallb (fun x => negb (is_leaf_named n x)) pre = true.
+Proof.
+  revert sub'; induction sub as [|x r IH]; intros sub' H; [discriminate|]. cbn [leaf_visit] in H.
+  destruct x as [nm ty v vis|xv xs xr].
+  - destruct (String.eqb nm n) eqn:E.
+    + apply String.eqb_eq in E. subst nm. injection H as <- <- <- <-. exists [], r. repeat split.
+    + destruct (leaf_visit n r) as [[[[t1 v1] w1] r']|] eqn:L; [|discriminate]. injection H as <- <- <- <-.
+      destruct (IH _ eq_refl) as (pre & post & -> & -> & Hp).
+      exists (PLeaf nm ty v vis :: pre), post. repeat split. cbn [forallb is_leaf_named]. now rewrite E.
+  - destruct (leaf_visit n r) as [[[[t1 v1] w1] r']|] eqn:L; [|discriminate]. injection H as <- <- <- <-.
+    destruct (IH _ eq_refl) as (pre & post & -> & -> & Hp).
+    exists (PFlat xv xs xr :: pre), post. repeat split. exact Hp.
+Qed.
+Lemma lfind_p_app n a b : lfind_p n (a ++ b) = match lfind_p n a with Some x => Some x | None => lfind_p n b end.
+Proof. unfold lfind_p. induction a as [|x a IH]; [reflexivity|]. cbn [app find]. now destruct (String.eqb (lname x) n). Qed.
+
+Lemma lfind_p_none n ls : lfind_p n ls = None <-> ~ In n (map lname ls).
+Proof.
+  unfold lfind_p. induction ls as [|x ls IH]; cbn [find map In]; [tauto|].
+  destruct (String.eqb (lname x) n) eqn:E.
+  - apply String.eqb_eq in E. split; [discriminate|]. intros H. exfalso. apply H. now left.
+  - apply String.eqb_neq in E. rewrite IH. tauto.
+Qed.
+
+Lemma lfind_p_some n ls x : lfind_p n ls = Some x -> In x ls /\ lname x = n.
+Proof. unfold lfind_p. intros H. apply find_some in H as [H1 H2]. apply String.eqb_eq in H2. tauto. Qed.
+
+Lemma pmark_notin n ls : ~ In n (map lname ls) -> pmark n ls = ls.
+Proof.
+  unfold pmark. induction ls as [|[[[nm ty] v] vis] ls IH]; intros H; [reflexivity|]. cbn [map lmark].
+  cbn [map In lname fst] in H. rewrite IH by tauto. f_equal.
+  destruct (String.eqb nm n) eqn:E; [apply String.eqb_eq in E; tauto|]. now rewrite orb_false_r.
+Qed.
+
+Lemma NoDup_app_notin {A} (a b : list A) x : NoDup (a ++ b) -> In x a -> ~ In x b.
+Proof.
+  induction a as [|y a IH]; intros H Hin; [contradiction|]. cbn in H. inversion H as [|? ? Hn Hd]; subst.
+  destruct Hin as [->|Hin]; [|now apply IH]. intros Hb. apply Hn. apply in_or_app. now right.
+Qed.
+
+Lemma NoDup_app_l {A} (a b : list A) : NoDup (a ++ b) -> NoDup a.
+Proof. induction a as [|y a IH]; intros H; [constructor|]. cbn in H. inversion H; subst. constructor; [|now apply IH]. intros Hin. apply H2. apply in_or_app. now left. Qed.
+Lemma NoDup_app_r {A} (a b : list A) : NoDup (a ++ b) -> NoDup b.
+Proof. induction a as [|y a IH]; intros H; [assumption|]. cbn in H. inversion H; subst. now apply IH. Qed.
+
+Lemma pmark_vis_mono n ls : (forall l, In l ls -> lvis l = true) -> forall l, In l (pmark n ls) -> lvis l = true.
+Proof.
+  unfold pmark. intros H l Hl. apply in_map_iff in Hl as ([[[nm ty] v] vis] & <- & Hx).
+  specialize (H _ Hx). cbn in *. now rewrite H.
+Qed.
+
+Definition sf_spec (p : pnode) (n : string) (ty : dty) : Prop :=
+  match p with
+  | PLeaf _ _ _ _ => True
+  | PFlat vis sub rem =>
+      match lfind_p n (flat_map pleaves sub) with
+      | None => serialize_field p n ty = Ok (NotUsed, p, None)
+      | Some (_, t0, v0, _) =>
+          match ser_field t0 v0 ty with
+          | None => serialize_field p n ty = Err (EColumnSerializationFailed n)
+          | Some cl => exists sub' rem',
+              serialize_field p n ty = Ok (status_of rem', PFlat vis sub' rem', Some cl) /\
+              pwf (PFlat vis sub' rem') /\ flat_map pleaves sub' = pmark n (flat_map pleaves sub)
+          end
+      end
+  end.
+
+Definition cnt (l : list pnode) : nat := List.length (filter child_unvisited l).
+
+Lemma try_spec n ty l :
+  Forall (fun x => pwf x -> NoDup (map lname (pleaves x)) -> sf_spec x n ty) l ->
+  Forall child_ok l -> NoDup (map lname (flat_map pleaves l)) ->
+  forallb (fun x => negb (is_leaf_named n x)) l = true ->
+  match lfind_p n (flat_map pleaves l) with
+  | None => try_flattened (fun x => serialize_field x n ty) l = Ok None
+  | Some (_, t0, v0, _) =>
+      match ser_field t0 v0 ty with
+      | None => try_flattened (fun x => serialize_field x n ty) l = Err (EColumnSerializationFailed n)
+      | Some cl => exists dn nv l',
+          try_flattened (fun x => serialize_field x n ty) l = Ok (Some (dn, nv, l', Some cl)) /\
+          Forall child_ok l' /\ flat_map pleaves l' = pmark n (flat_map pleaves l) /\
+          (cnt l' + (if nv then 1 else 0) = cnt l)%nat /\
+          (dn = false -> nv = false /\ (1 <= cnt l')%nat)
+      end
+  end.
+Proof.
+  induction l as [|x r IH]; intros HS HC HN HL; [reflexivity|].
+  inversion HS as [|? ? HSx HSr]; subst. inversion HC as [|? ? HCx HCr]; subst.
+  cbn [forallb] in HL. apply andb_true_iff in HL as [HLx HLr].
+  cbn [flat_map] in *. rewrite map_app in HN. rewrite lfind_p_app.
+  specialize (IH HSr HCr (NoDup_app_r _ _ HN) HLr).
+  destruct x as [nm t1 v1 vis1|xv xs xr].
+  - (* a plain field: not this column (leaf_visit found none) *)
+    cbn [is_leaf_named] in HLx. apply negb_true_iff in HLx.
+    cbn [pleaves lfind_p find lname fst]. rewrite HLx. cbn [try_flattened].
+    change (find (fun x => String.eqb (lname x) n) (flat_map pleaves r)) with (lfind_p n (flat_map pleaves r)).
+    destruct (lfind_p n (flat_map pleaves r)) as [[[[nm0 t0] v0] w0]|] eqn:LF.
+    + destruct (ser_field t0 v0 ty) as [cl|]; [|now rewrite IH].
+      destruct IH as (dn & nv & l' & -> & C' & P' & K' & D').
+      exists dn, nv, (PLeaf nm t1 v1 vis1 :: l'). repeat split.
+      * constructor; assumption.
+      * cbn [flat_map pleaves app pmark map lmark]. rewrite HLx, orb_false_r. f_equal. exact P'.
+      * unfold cnt in *. cbn [filter child_unvisited]. destruct (negb vis1); cbn [List.length]; lia.
+      * now apply D'.
+      * unfold cnt in *. cbn [filter child_unvisited]. destruct (negb vis1); cbn [List.length]; destruct (D' H); lia.
+    + now rewrite IH.
+  - (* a flattened field *)
+    destruct HCx as [Wx Cx]. specialize (HSx Wx (NoDup_app_l _ _ HN)). cbn [sf_spec pleaves] in HSx.
+    cbn [pleaves try_flattened].
+    destruct (lfind_p n (flat_map pleaves xs)) as [[[[nm0 t0] v0] w0]|] eqn:LF.
+    + (* the column belongs to this flattened struct; no later field has it *)
+      assert (Nr : ~ In n (map lname (flat_map pleaves r))).
+      { apply lfind_p_some in LF as [Hin <-]. apply (NoDup_app_notin _ _ _ HN). now apply in_map. }
+      destruct (ser_field t0 v0 ty) as [cl|]; [|now rewrite HSx].
+      destruct HSx as (sub' & rem' & -> & W' & P').
+      assert (Cr : pmark n (flat_map pleaves r) = flat_map pleaves r) by now apply pmark_notin.
+      destruct rem' as [|k]; cbn [status_of].
+      * exists true, (negb xv), (PFlat true sub' 0 :: r). repeat split.
+        -- constructor; [|assumption]. split; [|cbn; tauto]. apply pwf_flat. now apply pwf_flat in W'.
+        -- cbn [flat_map pleaves]. unfold pmark in *. now rewrite map_app, P', Cr.
+        -- unfold cnt. cbn [filter child_unvisited negb]. destruct (negb xv); cbn [List.length]; lia.
+        -- discriminate.
+        -- discriminate.
+      * (* NotDone: the struct cannot have been finished before *)
+        assert (Hxv : xv = false).
+        { destruct xv; [|reflexivity]. exfalso. cbn [child_ok0] in Cx.
+          assert (D : pdone (PFlat true xs xr)) by (cbn; now apply Cx).
+          pose proof (proj1 (pdone_iff _ Wx) D) as D2. cbn [pleaves] in D2.
+          assert (D' : pdone (PFlat true sub' (S k))).
+          { apply (proj2 (pdone_iff _ W')). cbn [pleaves]. rewrite P'. now apply pmark_vis_mono. }
+          cbn in D'. discriminate. }
+        subst xv. exists false, false, (PFlat false sub' (S k) :: r). repeat split.
+        -- constructor; [|assumption]. split; [assumption|]. cbn. split; discriminate.
+        -- cbn [flat_map pleaves]. unfold pmark in *. now rewrite map_app, P', Cr.
+        -- unfold cnt. cbn [filter child_unvisited negb List.length]. lia.
+        -- unfold cnt. cbn [filter child_unvisited negb List.length]. lia.
+    + rewrite HSx.
+      destruct (lfind_p n (flat_map pleaves r)) as [[[[nm0 t0] v0] w0]|] eqn:LFr.
+      * destruct (ser_field t0 v0 ty) as [cl|]; [|now rewrite IH].
+        destruct IH as (dn & nv & l' & -> & C' & P' & K' & D').
+        exists dn, nv, (PFlat xv xs xr :: l'). repeat split.
+        -- constructor; [split|]; assumption.
+        -- cbn [flat_map pleaves]. unfold pmark in *. rewrite map_app, P'. f_equal.
+           apply lfind_p_none in LF. symmetry. now apply pmark_notin.
+        -- unfold cnt in *. cbn [filter child_unvisited]. destruct (negb xv); cbn [List.length]; lia.
+        -- now apply D'.
+        -- unfold cnt in *. cbn [filter child_unvisited]. destruct (negb xv); cbn [List.length]; destruct (D' H); lia.
+      * now rewrite IH.
+Qed.
+Lemma cnt_app a b : cnt (a ++ b) = (cnt a + cnt b)%nat.
+Proof. unfold cnt. now rewrite filter_app, app_length. Qed.
+
+Lemma sf_correct p : forall n ty, pwf p -> NoDup (map lname (pleaves p)) -> sf_spec p n ty.
+Proof.
+  induction p as [nm t1 v1 vis1|vis sub rem IH] using pnode_ind'; intros n ty W HN; [exact I|].
+  cbn [sf_spec]. pose proof W as W0. apply pwf_flat in W as [Hrem HC]. cbn [pleaves] in HN.
+  cbn [serialize_field].
+  destruct (leaf_visit n sub) as [[[[t0 v0] was] sub']|] eqn:LV.
+  - (* one of the struct's own columns *)
+    destruct (leaf_visit_some _ _ _ _ _ _ LV) as (pre & post & -> & -> & Hpre).
+    rewrite flat_map_app in *. cbn [flat_map pleaves app] in *. rewrite map_app in HN. cbn [map lname fst] in HN.
+    assert (Npre : ~ In n (map lname (flat_map pleaves pre))).
+    { intros Hin. apply (NoDup_app_notin _ _ n HN Hin). now left. }
+    rewrite lfind_p_app. rewrite (proj2 (lfind_p_none _ _) Npre).
+    cbn [lfind_p find lname fst]. rewrite String.eqb_refl.
+    destruct (ser_field t0 v0 ty) as [cl|]; [|reflexivity].
+    assert (Npost : ~ In n (map lname (flat_map pleaves post))).
+    { apply NoDup_app_r in HN. now inversion HN. }
+    assert (HC' : Forall child_ok (pre ++ PLeaf n t0 v0 true :: post)).
+    { apply Forall_app in HC as [C1 C2]. inversion C2; subst. apply Forall_app. split; [assumption|].
+      constructor; [split; exact I|assumption]. }
+    assert (HP : flat_map pleaves pre ++ (n, t0, v0, true) :: flat_map pleaves post
+                 = pmark n (flat_map pleaves pre ++ (n, t0, v0, was) :: flat_map pleaves post)).
+    { unfold pmark. rewrite map_app. cbn [map lmark]. rewrite String.eqb_refl, orb_true_r.
+      fold (pmark n (flat_map pleaves pre)). fold (pmark n (flat_map pleaves post)).
+      now rewrite !pmark_notin by assumption. }
+    change (rem = cnt (pre ++ PLeaf n t0 v0 was :: post)) in Hrem. rewrite cnt_app in Hrem.
+    assert (Ecnt : forall w, cnt (PLeaf n t0 v0 w :: post) = ((if w then 0 else 1) + cnt post)%nat).
+    { intros w. unfold cnt. cbn [filter child_unvisited]. now destruct w. }
+    rewrite Ecnt in Hrem.
+    assert (Wnew : pwf (PFlat vis (pre ++ PLeaf n t0 v0 true :: post) (cnt pre + cnt post))).
+    { apply pwf_flat. split; [|assumption]. change (List.length (filter child_unvisited (pre ++ PLeaf n t0 v0 true :: post)))
+        with (cnt (pre ++ PLeaf n t0 v0 true :: post)). rewrite cnt_app, Ecnt. lia. }
+    destruct was.
+    + assert (rem = cnt pre + cnt post)%nat as -> by lia.
+      exists (pre ++ PLeaf n t0 v0 true :: post), (cnt pre + cnt post)%nat.
+      split; [reflexivity|]. split; [exact Wnew|rewrite flat_map_app; exact HP].
+    + assert (rem = S (cnt pre + cnt post))%nat as -> by lia. cbn [dec].
+      exists (pre ++ PLeaf n t0 v0 true :: post), (cnt pre + cnt post)%nat.
+      split; [reflexivity|]. split; [exact Wnew|rewrite flat_map_app; exact HP].
+  - (* a column of a flattened struct, or none *)
+    apply leaf_visit_none in LV.
+    pose proof (try_spec n ty sub) as T.
+    assert (HS : Forall (fun x => pwf x -> NoDup (map lname (pleaves x)) -> sf_spec x n ty) sub).
+    { rewrite Forall_forall in IH |- *. intros x Hx Wx Nx. now apply IH. }
+    specialize (T HS HC HN LV).
+    destruct (lfind_p n (flat_map pleaves sub)) as [[[[nm0 t0] v0] w0]|].
+    + destruct (ser_field t0 v0 ty) as [cl|]; [|now rewrite T].
+      destruct T as (dn & nv & l' & -> & C' & P' & K' & D'). change (rem = cnt sub) in Hrem.
+      destruct dn.
+      * destruct nv.
+        -- rewrite Hrem, <- K'. replace (cnt l' + 1)%nat with (S (cnt l')) by lia. cbn [dec].
+           exists l', (cnt l'). split; [reflexivity|]. split; [|assumption]. apply pwf_flat. split; [reflexivity|assumption].
+        -- exists l', rem. split; [reflexivity|]. split; [|assumption]. apply pwf_flat. split; [|assumption]. fold (cnt l'). lia.
+      * destruct (D' eq_refl) as [-> K1]. exists l', rem. split.
+        -- assert (E : status_of rem = NotDone) by (destruct rem; [lia|reflexivity]). now rewrite E.
+        -- split; [|assumption]. apply pwf_flat. split; [|assumption]. fold (cnt l'). lia.
+    + now rewrite T.
+Qed.
+Lemma first_unvisited_flat_spec l :
+  Forall (fun x => pwf x -> match x with
+                            | PFlat _ _ (S _) => exists nm, check_missing x = Err (ENoColumnWithName nm)
+                            | _ => True end) l ->
+  Forall child_ok l -> first_unvisited_leaf l = None -> (1 <= cnt l)%nat ->
+  exists nm, first_unvisited_flat check_missing l = Err (ENoColumnWithName nm).
+Proof.
+  induction l as [|x r IH]; intros HI HC HL HK; [unfold cnt in HK; cbn in HK; lia|].
+  inversion HI as [|? ? HIx HIr]; subst. inversion HC as [|? ? HCx HCr]; subst.
+  destruct x as [nm ty v vis|xv xs xr]; cbn [first_unvisited_leaf first_unvisited_flat] in *.
+  - destruct vis; [|discriminate].
+    apply IH; try assumption; unfold cnt in *; cbn [filter child_unvisited negb] in HK; exact HK.
+  - destruct xv.
+    + apply IH; try assumption; unfold cnt in *; cbn [filter child_unvisited negb] in HK; exact HK.
+    + destruct HCx as [Wx Cx]. cbn [child_ok0] in Cx. specialize (HIx Wx).
+      destruct xr as [|k]; [|exact HIx]. exfalso. assert (X : false = true) by now apply Cx. discriminate X.
+Qed.
+
+Lemma check_missing_spec p : pwf p ->
+  match p with
+  | PFlat _ _ O => check_missing p = Ok tt
+  | PFlat _ _ (S _) => exists nm, check_missing p = Err (ENoColumnWithName nm)
+  | PLeaf _ _ _ _ => True
+  end.
+Proof.
+  induction p as [nm t1 v1 vis1|vis sub rem IH] using pnode_ind'; intros W; [exact I|].
+  destruct rem as [|k]; [reflexivity|]. cbn [check_missing].
+  destruct (first_unvisited_leaf sub) as [nm|] eqn:FL; [now exists nm|].
+  apply pwf_flat in W as [Hrem HC].
+  apply first_unvisited_flat_spec; try assumption.
+  - rewrite Forall_forall in IH |- *. intros x Hx Wx. specialize (IH x Hx Wx).
+    destruct x as [|xv xs [|j]]; try exact I. exact IH.
+  - unfold cnt. lia.
+Qed.
+
+(* the initial partial of a struct *)
+Fixpoint rfield_ind' (P : rfield -> Prop)
+  (Hl : forall l, P (RLeaf l))
+  (Hf : forall s snc sub, Forall P sub -> P (RFlat s snc sub)) (f : rfield) : P f :=
+  match f with
+  | RLeaf l => Hl l
+  | RFlat s snc sub =>
+      Hf s snc sub ((fix go (l : list rfield) : Forall P l :=
+                       match l with
+                       | [] => Forall_nil P
+                       | x :: r => Forall_cons x (rfield_ind' P Hl Hf x) (go r)
+                       end) sub)
+  end.
+
+Definition lv (ls : list rleaf) (seen : list string) : list pleaf :=
+  map (fun l => (rl_name l, rl_ty l, rl_val l, mem (rl_name l) seen)) ls.
+
+Lemma lv_app a b seen : lv (a ++ b) seen = lv a seen ++ lv b seen.
+Proof. unfold lv. apply map_app. Qed.
+
+Lemma partial_fields_spec sub :
+  Forall (fun x => flat_nonempty x = true -> rf_skip x = false ->
+                   child_ok (mk_partial x) /\ child_unvisited (mk_partial x) = true /\
+                   pleaves (mk_partial x) = lv (leaves_of x) []) sub ->
+  forallb flat_nonempty sub = true ->
+  let ps := partial_fields mk_partial sub in
+  Forall child_ok ps /\ cnt ps = List.length ps /\ flat_map pleaves ps = lv (flat_map leaves_of sub) [].
+Proof.
+  induction sub as [|x r IH]; intros HI HN; [cbn; repeat split; constructor|].
+  inversion HI as [|? ? HIx HIr]; subst. cbn [forallb] in HN. apply andb_true_iff in HN as [HNx HNr].
+  destruct (IH HIr HNr) as (C & K & L). cbn [partial_fields flat_map]. fold (partial_fields mk_partial r).
+  destruct (rf_skip x) eqn:Sx.
+  - cbv zeta. repeat split; try assumption. rewrite lv_app, <- L.
+    assert (E : leaves_of x = []).
+    { destruct x as [l|s snc sub]; cbn [leaves_of rf_skip] in *; now rewrite Sx. }
+    now rewrite E.
+  - destruct (HIx HNx eq_refl) as (Cx & Ux & Lx). cbv zeta. repeat split.
+    + constructor; assumption.
+    + unfold cnt in *. cbn [filter]. rewrite Ux. cbn [List.length]. now rewrite K.
+    + cbn [flat_map]. now rewrite lv_app, Lx, L.
+Qed.
+
+Lemma mk_partial_spec f : flat_nonempty f = true -> rf_skip f = false ->
+  child_ok (mk_partial f) /\ child_unvisited (mk_partial f) = true /\
+  pleaves (mk_partial f) = lv (leaves_of f) [].
+Proof.
+  induction f as [l|s snc sub IH] using rfield_ind'; intros HN HS.
+  - cbn [rf_skip] in HS. cbn [mk_partial leaves_of]. rewrite HS. repeat split.
+  - cbn [rf_skip] in HS. subst s. cbn [flat_nonempty orb] in HN. apply andb_true_iff in HN as [HN1 HN2].
+    cbn [mk_partial leaves_of].
+    destruct (partial_fields_spec sub IH HN2) as (C & K & L). cbv zeta in C, K, L.
+    set (ps := partial_fields mk_partial sub) in *.
+    assert (Hlen : (1 <= List.length ps)%nat).
+    { destruct ps as [|y ps']; [|cbn; lia]. cbn [flat_map] in L.
+      destruct (flat_map leaves_of sub); [discriminate HN1|discriminate L]. }
+    split; [|split; [reflexivity|exact L]].
+    split.
+    + apply pwf_flat. split; [now rewrite <- K|assumption].
+    + cbn [child_ok0]. split; [discriminate|]. intros E. lia.
+Qed.
+
+Lemma mk_partial_top fields : forallb flat_nonempty fields = true ->
+  pwf (mk_partial (RFlat false false fields)) /\
+  pleaves (mk_partial (RFlat false false fields)) = lv (flat_map leaves_of fields) [].
+Proof.
+  intros HN. cbn [mk_partial].
+  assert (HI : Forall (fun x => flat_nonempty x = true -> rf_skip x = false ->
+                   child_ok (mk_partial x) /\ child_unvisited (mk_partial x) = true /\
+                   pleaves (mk_partial x) = lv (leaves_of x) []) fields).
+  { apply Forall_forall. intros x _. apply mk_partial_spec. }
+  destruct (partial_fields_spec fields HI HN) as (C & K & L). cbv zeta in C, K, L. split.
+  - apply pwf_flat. split; [now rewrite <- K|assumption].
+  - exact L.
+Qed.
+Definition rcellof (ls : list rleaf) (c : dbfield) : cell :=
+  match lfind (fst c) ls with
+  | Some l => match ser_field (rl_ty l) (rl_val l) (snd c) with Some cl => cl | None => None end
+  | None => None
+  end.
+Definition col_ok (ls : list rleaf) (c : dbfield) : bool :=
+  match lfind (fst c) ls with
+  | Some l => match ser_field (rl_ty l) (rl_val l) (snd c) with Some _ => true | None => false end
+  | None => false
+  end.
+
+Lemma lfind_lv n ls seen :
+  lfind_p n (lv ls seen) = option_map (fun l => (rl_name l, rl_ty l, rl_val l, mem (rl_name l) seen)) (lfind n ls).
+Proof.
+  unfold lfind_p, lfind, lv. induction ls as [|l ls IH]; [reflexivity|]. cbn [map find lname fst].
+  destruct (String.eqb (rl_name l) n); [reflexivity|exact IH].
+Qed.
+
+Lemma pmark_lv n ls seen : pmark n (lv ls seen) = lv ls (seen ++ [n]).
+Proof.
+  unfold pmark, lv. rewrite map_map. apply map_ext. intros l. cbn [lmark]. f_equal.
+  unfold mem. rewrite existsb_app. cbn [existsb]. now rewrite orb_false_r.
+Qed.
+
+Lemma lv_names ls seen : map lname (lv ls seen) = map rl_name ls.
+Proof. unfold lv. rewrite map_map. reflexivity. Qed.
+
+Lemma byname_loop_char ls : NoDup (map rl_name ls) -> forall cols p out seen,
+  pwf p -> pleaves p = lv ls seen -> (exists vis sub rem, p = PFlat vis sub rem) ->
+  if forallb (col_ok ls) cols
+  then exists p', byname_loop p cols out = Ok (p', out ++ map (rcellof ls) cols) /\ pwf p' /\
+                  pleaves p' = lv ls (seen ++ map fst cols) /\ (exists vis sub rem, p' = PFlat vis sub rem)
+  else exists e, byname_loop p cols out = Err e /\ e <> EPanic.
+Proof.
+  intros HN. induction cols as [|[n ty] cols IH]; intros p out seen W L (vis & sub & rem & ->).
+  - cbn [forallb byname_loop map]. exists (PFlat vis sub rem). rewrite !app_nil_r.
+    split; [reflexivity|]. split; [assumption|]. split; [assumption|]. now exists vis, sub, rem.
+  - cbn [forallb byname_loop]. unfold col_ok at 1. cbn [fst snd].
+    pose proof (sf_correct (PFlat vis sub rem) n ty W) as S. rewrite L, lv_names in S. specialize (S HN).
+    cbn [sf_spec] in S. cbn [pleaves] in L. rewrite L, lfind_lv in S.
+    destruct (lfind n ls) as [l|] eqn:F; cbn [option_map] in S.
+    + destruct (ser_field (rl_ty l) (rl_val l) ty) as [cl|] eqn:SF.
+      * destruct S as (sub' & rem' & -> & W' & P'). cbn [andb].
+        assert (St : forall X Y : result err (pnode * list cell),
+                   match status_of rem' with NotUsed => X | _ => Y end = Y) by (intros; now destruct rem').
+        assert (Ecl : rcellof ls (n, ty) = cl) by (unfold rcellof; cbn [fst snd]; now rewrite F, SF).
+        specialize (IH (PFlat vis sub' rem') (out ++ [cl]) (seen ++ [n]) W').
+        rewrite pmark_lv in P'. specialize (IH P' ltac:(now exists vis, sub', rem')).
+        destruct (status_of rem') eqn:Est; try (destruct rem'; discriminate).
+        -- destruct (forallb (col_ok ls) cols).
+           ++ destruct IH as (p' & -> & Wp & Lp & Fp). exists p'.
+              split; [|split; [assumption|split; [|assumption]]].
+              ** cbn [map]. rewrite Ecl. now rewrite <- app_assoc.
+              ** cbn [map fst]. now rewrite <- app_assoc in Lp.
+           ++ exact IH.
+        -- destruct (forallb (col_ok ls) cols).
+           ++ destruct IH as (p' & -> & Wp & Lp & Fp). exists p'.
+              split; [|split; [assumption|split; [|assumption]]].
+              ** cbn [map]. rewrite Ecl. now rewrite <- app_assoc.
+              ** cbn [map fst]. now rewrite <- app_assoc in Lp.
+           ++ exact IH.
+      * rewrite S. cbn [andb]. eexists. split; [reflexivity|discriminate].
+    + rewrite S. eexists. split; [reflexivity|discriminate].
+Qed.
+
+Lemma existsb_negb {A} (p : A -> bool) l : existsb (fun x => negb (p x)) l = negb (forallb p l).
+Proof. induction l as [|x l IH]; [reflexivity|]. cbn [existsb forallb]. rewrite IH. now destruct (p x). Qed.
+
+Lemma doc_ser_row_by_name_eq d cols : doc_ser_row_by_name d cols =
+  let ls := rd_leaves d in
+  if negb (forallb (fun c : dbfield => match lfind (fst c) ls with Some _ => true | None => false end) cols) then Reject
+  else if negb (forallb (fun l => mem (rl_name l) (map fst cols)) ls) then Reject
+  else if negb (forallb (col_ok ls) cols) then Reject
+  else Accept (map (rcellof ls) cols).
+Proof.
+  unfold doc_ser_row_by_name. cbv zeta. set (ls := rd_leaves d).
+  assert (E1 : existsb (fun c : string * dty => match lfind (fst c) ls with None => true | Some _ => false end) cols
+               = negb (forallb (fun c : dbfield => match lfind (fst c) ls with Some _ => true | None => false end) cols)).
+  { induction cols as [|c cols IH]; [reflexivity|]. cbn [existsb forallb]. rewrite IH.
+    destruct (lfind (fst c) ls); cbn; [reflexivity|reflexivity]. }
+  assert (E2 : existsb (fun l => negb (mem (rl_name l) (map fst cols))) ls
+               = negb (forallb (fun l => mem (rl_name l) (map fst cols)) ls)).
+  { apply existsb_negb. }
+  rewrite E1, E2.
+  destruct (forallb (fun c : dbfield => match lfind (fst c) ls with Some _ => true | None => false end) cols) eqn:K; [|reflexivity].
+  cbn [negb]. destruct (forallb (fun l => mem (rl_name l) (map fst cols)) ls); [|reflexivity]. cbn [negb].
+  assert (E3 : existsb (fun c : string * dty => match lfind (fst c) ls with
+                 | Some l => match ser_field (rl_ty l) (rl_val l) (snd c) with None => true | Some _ => false end
+                 | None => false end) cols = negb (forallb (col_ok ls) cols)).
+  { clear -K. induction cols as [|c cols IH]; [reflexivity|]. cbn [existsb forallb] in *.
+    apply andb_true_iff in K as [K1 K2]. rewrite (IH K2).
+    destruct (lfind (fst c) ls) as [l|] eqn:F; [|discriminate K1].
+    assert (Ec : col_ok ls c = match ser_field (rl_ty l) (rl_val l) (snd c) with Some _ => true | None => false end)
+      by (unfold col_ok; now rewrite F).
+    rewrite Ec. destruct (ser_field (rl_ty l) (rl_val l) (snd c)); reflexivity. }
+  rewrite E3. reflexivity.
+Qed.
+
+Theorem ser_row_by_name_doc d cols : rdesc_wf d = true ->
+  outcome_of (gen_ser_row_by_name d cols) = doc_ser_row_by_name d cols /\
+  gen_ser_row_by_name d cols <> Err EPanic.
+Proof.
+  unfold rdesc_wf. intros H. apply andb_true_iff in H as [HN HE]. apply nodupb_NoDup in HN.
+  rewrite doc_ser_row_by_name_eq. cbv zeta. unfold gen_ser_row_by_name.
+  set (ls := rd_leaves d) in *.
+  destruct (mk_partial_top _ HE) as [W0 L0]. fold (rd_leaves d) in L0. fold ls in L0.
+  pose proof (byname_loop_char ls HN cols (mk_partial (RFlat false false (rd_fields d))) [] [] W0 L0) as B.
+  specialize (B ltac:(cbn [mk_partial]; eauto)).
+  assert (Known : forallb (col_ok ls) cols = true ->
+                  forallb (fun c : dbfield => match lfind (fst c) ls with Some _ => true | None => false end) cols = true).
+  { clear. induction cols as [|c cols IH]; [reflexivity|]. cbn [forallb]. intros H.
+    apply andb_true_iff in H as [H1 H2]. rewrite (IH H2). unfold col_ok in H1.
+    destruct (lfind (fst c) ls); [reflexivity|discriminate]. }
+  destruct (forallb (col_ok ls) cols) eqn:OK.
+  - destruct B as (p' & -> & Wp & Lp & (vis & sub & rem & ->)). cbn [app] in *.
+    rewrite (Known eq_refl). cbn [negb].
+    pose proof (check_missing_spec _ Wp) as CM. pose proof (pdone_iff _ Wp) as PD. rewrite Lp in PD.
+    cbn [pdone] in PD.
+    assert (Vis : rem = O <-> forallb (fun l => mem (rl_name l) (map fst cols)) ls = true).
+    { rewrite PD, forallb_forall. unfold lv. split.
+      - intros A l Hl. apply (A (rl_name l, rl_ty l, rl_val l, mem (rl_name l) (map fst cols))).
+        apply in_map_iff. now exists l.
+      - intros A x Hx. apply in_map_iff in Hx as (l & <- & Hl). cbn. now apply A. }
+    destruct rem as [|k].
+    + rewrite CM. rewrite (proj1 Vis eq_refl). cbn [negb outcome_of]. split; [reflexivity|discriminate].
+    + destruct CM as [nm ->]. destruct (forallb (fun l => mem (rl_name l) (map fst cols)) ls) eqn:V.
+      * exfalso. assert (S k = O) by now apply Vis. discriminate.
+      * cbn [negb outcome_of]. split; [reflexivity|discriminate].
+  - destruct B as (e & -> & Ne). cbn [outcome_of negb]. split; [|congruence].
+    destruct (negb (forallb _ cols)); [reflexivity|]. now destruct (negb (forallb _ ls)).
+Qed.
+(* ------------------------------------------------------------ rows by name: placement and round trip *)
+
+Definition rvalue_of (ls : list rleaf) (n : string) : cell :=
+  match lfind n ls with Some l => rl_val l | None => None end.
+
+Lemma lfind_self ls l : NoDup (map rl_name ls) -> In l ls -> lfind (rl_name l) ls = Some l.
+Proof.
+  unfold lfind. induction ls as [|g ls IH]; intros HN Hin; [contradiction|]. cbn [find map] in *.
+  inversion HN as [|? ? Hn Hd]; subst. destruct Hin as [->|Hin]; [now rewrite String.eqb_refl|].
+  destruct (String.eqb (rl_name g) (rl_name l)) eqn:E; [|now apply IH].
+  exfalso. apply String.eqb_eq in E. apply Hn. rewrite E. now apply in_map.
+Qed.
+
+Theorem by_name_ser_row d cols : rdesc_wf d = true ->
+  Permutation (map fst cols) (map rl_name (rd_leaves d)) ->
+  (forall c l, In c cols -> lfind (fst c) (rd_leaves d) = Some l -> accepts (rl_ty l) (snd c) = true) ->
+  gen_ser_row_by_name d cols = Ok (map (fun c => rvalue_of (rd_leaves d) (fst c)) cols).
+Proof.
+  intros W P Acc. apply outcome_accept. rewrite (proj1 (ser_row_by_name_doc d cols W)).
+  rewrite doc_ser_row_by_name_eq. cbv zeta. set (ls := rd_leaves d) in *.
+  unfold rdesc_wf in W. apply andb_true_iff in W as [HN _]. apply nodupb_NoDup in HN. fold ls in HN.
+  assert (Bound : forall c, In c cols -> exists l, lfind (fst c) ls = Some l).
+  { intros c Hc. assert (H : In (fst c) (map rl_name ls)) by (eapply Permutation_in; [exact P|now apply in_map]).
+    apply in_map_iff in H as (l & <- & Hl). exists l. now apply lfind_self. }
+  assert (E1 : forallb (fun c : dbfield => match lfind (fst c) ls with Some _ => true | None => false end) cols = true).
+  { apply forallb_forall. intros c Hc. destruct (Bound c Hc) as [l ->]. reflexivity. }
+  assert (E2 : forallb (fun l => mem (rl_name l) (map fst cols)) ls = true).
+  { apply forallb_forall. intros l Hl. apply mem_In. eapply Permutation_in; [apply Permutation_sym; exact P|now apply in_map]. }
+  assert (E3 : forallb (col_ok ls) cols = true).
+  { apply forallb_forall. intros c Hc. destruct (Bound c Hc) as [l F]. unfold col_ok. rewrite F.
+    unfold ser_field. rewrite (Acc c l Hc F). now destruct (rl_val l). }
+  rewrite E1, E2, E3. cbn [negb]. f_equal. apply map_ext_in. intros c Hc.
+  destruct (Bound c Hc) as [l F]. unfold rcellof, rvalue_of. rewrite F.
+  unfold ser_field. rewrite (Acc c l Hc F). now destruct (rl_val l).
+Qed.
+
+Lemma leaves_only_leaves fs ls : leaves_only fs = Some ls ->
+  flat_map leaves_of fs = filter (fun l => negb (rl_skip l)) ls.
+Proof.
+  revert ls; induction fs as [|f fs IH]; intros ls H; cbn [leaves_only] in H.
+  - now injection H as <-.
+  - destruct f as [l|s snc sub]; [|discriminate].
+    destruct (leaves_only fs) as [ls'|]; [|discriminate]. injection H as <-.
+    cbn [flat_map leaves_of filter]. rewrite (IH _ eq_refl). now destruct (rl_skip l).
+Qed.
+
+Lemma lfind_filter n ls : lfind n (filter (fun l => negb (rl_skip l)) ls) = rfind n ls.
+Proof.
+  unfold lfind, rfind. induction ls as [|l ls IH]; [reflexivity|]. cbn [filter find].
+  destruct (rl_skip l); cbn [negb andb find]; [exact IH|]. destruct (String.eqb (rl_name l) n); [reflexivity|exact IH].
+Qed.
+
+Lemma rdeser_back f : val_ok (rl_ty f) (rl_val f) = true -> rdeser_with_default f (rl_val f) = Some (rl_val f).
+Proof. exact (deser_back (emb f)). Qed.
+
+Theorem roundtrip_row_by_name d ls cols cells : rdesc_wf d = true -> leaves_only (rd_fields d) = Some ls ->
+  forallb (fun l => val_ok (rl_ty l) (rl_val l)) ls = true ->
+  gen_ser_row_by_name d cols = Ok cells -> gen_typeck_row_by_name ls cols = Ok tt ->
+  gen_deser_row_by_name ls cols cells = Ok (map rback_value ls).
+Proof.
+  intros W LO Hv Hs Ht.
+  destruct (ser_row_by_name_doc d cols W) as [S _]. rewrite Hs, doc_ser_row_by_name_eq in S. cbv zeta in S.
+  cbn [outcome_of] in S. unfold rd_leaves in S. rewrite (leaves_only_leaves _ _ LO) in S.
+  set (nls := filter (fun l => negb (rl_skip l)) ls) in *.
+  assert (Hnd : rnodup ls).
+  { unfold rnodup. fold nls. unfold rdesc_wf in W. apply andb_true_iff in W as [HN _]. apply nodupb_NoDup in HN.
+    unfold rd_leaves in HN. now rewrite (leaves_only_leaves _ _ LO) in HN. }
+  destruct (negb (forallb _ cols)); [discriminate S|].
+  destruct (negb (forallb _ nls)); [discriminate S|].
+  destruct (forallb (col_ok nls) cols) eqn:OK; cbn [negb] in S; [|discriminate S]. injection S as ->.
+  apply (proj1 (typeck_row_by_name_doc ls cols Hnd)) in Ht.
+  assert (Hlen : List.length (map (rcellof nls) cols) = List.length cols) by apply map_length.
+  destruct (deser_row_by_name_doc ls cols _ Hnd Hlen Ht) as [D _].
+  apply outcome_accept. rewrite D.
+  rewrite (all_some_map _ rback_value); [reflexivity|].
+  intros f Hf. unfold doc_row_field_value, rback_value. destruct (rl_skip f) eqn:Sf; [reflexivity|].
+  (* the column named like the field carries the field's value *)
+  assert (Pres : mem (rl_name f) (map fst cols) = true).
+  { unfold doc_typeck_row_by_name in Ht. apply andb_true_iff in Ht as [_ T2]. rewrite forallb_forall in T2.
+    specialize (T2 f Hf). rewrite Sf in T2. cbn [orb] in T2. apply Nat.eqb_eq in T2. apply mem_count. lia. }
+  assert (X : db_cell (rl_name f) (combine cols (map (rcellof nls) cols)) = Some (rl_val f)).
+  { assert (Fn : lfind (rl_name f) nls = Some f).
+    { unfold nls. rewrite lfind_filter. unfold rfind.
+      clear -Hnd Hf Sf. unfold rnodup in Hnd. induction ls as [|g ls IH]; [contradiction|]. cbn [find filter map] in *.
+      destruct (rl_skip g) eqn:Sg; cbn [negb andb] in *.
+      - destruct Hf as [->|Hf]; [congruence|]. now apply IH.
+      - cbn [map] in Hnd. inversion Hnd as [|? ? Hn Hd]; subst.
+        destruct Hf as [->|Hf]; [now rewrite String.eqb_refl|].
+        destruct (String.eqb (rl_name g) (rl_name f)) eqn:E; [|now apply IH].
+        exfalso. apply String.eqb_eq in E. apply Hn. rewrite E. apply in_map. apply filter_In. now rewrite Sf. }
+    clear -Pres OK Fn. induction cols as [|[m t] cols IH]; [discriminate|].
+    cbn [map combine db_cell forallb] in *. apply andb_true_iff in OK as [O1 O2].
+    unfold mem in Pres. cbn [map fst existsb] in Pres.
+    destruct (String.eqb m (rl_name f)) eqn:E.
+    - apply String.eqb_eq in E. subst m. f_equal. unfold rcellof, col_ok in *. cbn [fst snd] in *. rewrite Fn in *.
+      destruct (ser_field (rl_ty f) (rl_val f) t) as [cl|] eqn:SF; [|discriminate]. now apply ser_field_some in SF.
+    - rewrite String.eqb_sym, E in Pres. cbn [orb] in Pres. now apply IH. }
+  rewrite X. apply rdeser_back. rewrite forallb_forall in Hv. now apply Hv.
+Qed.
+(* ------------------------------------------------------------ enforce_order, rows *)
+
+(* the leaves an enforce_order struct serializes, each with the skip_name_checks flag of the
+   struct that declares it *)
+Fixpoint oleaves (snc : bool) (f : rfield) : list (bool * rleaf) :=
+  match f with
+  | RLeaf l => [(snc, l)]
+  | RFlat _ snc' sub => flat_map (fun x => if rf_skip x then [] else oleaves snc' x) sub
+  end.
+
+Fixpoint io_flat (ls : list (bool * rleaf)) (cols : list dbfield) (out : list cell)
+  : result err (list cell * list dbfield) :=
+  match ls with
+  | [] => Ok (out, cols)
+  | (snc, l) :: r =>
+      match in_order_field snc (RLeaf l) cols out with
+      | Err e => Err e
+      | Ok (out', cols') => io_flat r cols' out'
+      end
+  end.
+
+Lemma io_flat_app a b cols out :
+  io_flat (a ++ b) cols out =
+  match io_flat a cols out with Err e => Err e | Ok (out', cols') => io_flat b cols' out' end.
+Proof.
+  revert cols out; induction a as [|[snc l] a IH]; intros cols out; [reflexivity|].
+  cbn [app io_flat]. destruct (in_order_field snc (RLeaf l) cols out) as [[o c]|e]; [apply IH|reflexivity].
+Qed.
+
+Lemma in_order_flat f : forall snc cols out, in_order_field snc f cols out = io_flat (oleaves snc f) cols out.
+Proof.
+  induction f as [l|s snc' sub IH] using rfield_ind'; intros snc cols out.
+  - cbn [oleaves io_flat]. now destruct (in_order_field snc (RLeaf l) cols out) as [[o c]|e].
+  - cbn [in_order_field oleaves]. revert cols out. induction sub as [|x r IHr]; intros cols out; [reflexivity|].
+    inversion IH as [|? ? IHx IHrest]; subst. cbn [in_order_fields flat_map].
+    destruct (rf_skip x); [now apply IHr|]. rewrite io_flat_app, <- IHx.
+    destruct (in_order_field snc' x cols out) as [[o c]|e]; [now apply IHr|reflexivity].
+Qed.
+
+Definition rser_pair (lc : rleaf * dbfield) : option cell :=
+  ser_field (rl_ty (fst lc)) (rl_val (fst lc)) (snd (snd lc)).
+
+Lemma io_plain ls : forall cols out,
+  outcome_of (io_flat (map (pair false) ls) cols out) =
+  match names_prefix (map rl_name ls) cols with
+  | None => Reject
+  | Some (p, rest) => match all_some (map rser_pair (combine ls p)) with
+                      | Some cs => Accept (out ++ cs, rest)
+                      | None => Reject
+                      end
+  end.
+Proof.
+  induction ls as [|l ls IH]; intros cols out; [cbn; now rewrite app_nil_r|].
+  cbn [map io_flat in_order_field names_prefix negb andb].
+  destruct cols as [|[n ty] cols]; [reflexivity|].
+  destruct (String.eqb n (rl_name l)); cbn [negb]; [|reflexivity].
+  destruct (names_prefix (map rl_name ls) cols) as [[p rest]|] eqn:N.
+  - cbn [combine map all_some]. unfold rser_pair at 1. cbn [fst snd].
+    destruct (ser_field (rl_ty l) (rl_val l) ty) as [cl|]; [|reflexivity].
+    rewrite IH, N. destruct (all_some (map rser_pair (combine ls p))); [|reflexivity]. now rewrite <- app_assoc.
+  - destruct (ser_field (rl_ty l) (rl_val l) ty) as [cl|]; [|reflexivity]. now rewrite IH, N.
+Qed.
+
+Lemma oleaves_plain f : rf_plain f = true -> rf_skip f = false ->
+  oleaves false f = map (pair false) (leaves_of f).
+Proof.
+  induction f as [l|s snc' sub IH] using rfield_ind'; intros HP HS.
+  - cbn [rf_skip] in HS. cbn [oleaves leaves_of]. now rewrite HS.
+  - cbn [rf_skip] in HS. subst s. cbn [rf_plain] in HP. apply andb_true_iff in HP as [H1 H2].
+    apply negb_true_iff in H1. subst snc'. cbn [oleaves leaves_of].
+    induction sub as [|x r IHr]; [reflexivity|]. inversion IH as [|? ? IHx IHrest]; subst.
+    cbn [forallb] in H2. apply andb_true_iff in H2 as [H2x H2r]. cbn [flat_map]. rewrite map_app.
+    rewrite (IHr IHrest H2r). f_equal. destruct (rf_skip x) eqn:Sx.
+    + destruct x as [l|s0 snc0 sub0]; cbn [leaves_of rf_skip] in *; now rewrite Sx.
+    + now apply IHx.
+Qed.
+
+Lemma doc_ser_row_ordered_eq d cols : doc_ser_row_ordered d cols =
+  match names_prefix (map rl_name (rd_leaves d)) cols with
+  | Some (p, []) => match all_some (map rser_pair (combine (rd_leaves d) p)) with
+                    | Some cs => Accept cs
+                    | None => Reject
+                    end
+  | _ => Reject
+  end.
+Proof. reflexivity. Qed.
+
+Theorem ser_row_ordered_doc d cols : rordered_plain d = true ->
+  outcome_of (gen_ser_row_ordered d cols) = doc_ser_row_ordered d cols.
+Proof.
+  unfold rordered_plain. intros H. apply andb_true_iff in H as [H1 H2]. apply negb_true_iff in H1.
+  rewrite doc_ser_row_ordered_eq. unfold gen_ser_row_ordered. rewrite H1, in_order_flat.
+  assert (E : oleaves false (RFlat false false (rd_fields d)) = map (pair false) (rd_leaves d)).
+  { apply (oleaves_plain (RFlat false false (rd_fields d))); [cbn [rf_plain negb andb]; exact H2|reflexivity]. }
+  rewrite E. pose proof (io_plain (rd_leaves d) cols []) as P.
+  destruct (names_prefix (map rl_name (rd_leaves d)) cols) as [[p rest]|].
+  - destruct (io_flat _ cols []) as [[o c]|e]; cbn [outcome_of] in P.
+    + destruct (all_some (map rser_pair (combine (rd_leaves d) p))) as [cs|]; [|discriminate].
+      injection P as -> ->. cbn [app]. destruct rest as [|[n t] rest]; reflexivity.
+    + destruct (all_some (map rser_pair (combine (rd_leaves d) p))); [discriminate|]. now destruct rest.
+  - destruct (io_flat _ cols []) as [[o c]|e]; cbn [outcome_of] in P; [discriminate|reflexivity].
+Qed.
+
+(* type_check, enforce_order, rows *)
+Definition racc_pair (lc : rleaf * dbfield) : bool := accepts (rl_ty (fst lc)) (snd (snd lc)).
+
+Lemma tro_plain ls : forall fidx cidx cols,
+  List.length cols = List.length (filter (fun f => negb (rl_skip f)) ls) ->
+  (tro_loop false fidx cidx ls cols = Ok tt <->
+   exists p, names_prefix (map rl_name (filter (fun f => negb (rl_skip f)) ls)) cols = Some (p, []) /\
+             forallb racc_pair (combine (filter (fun f => negb (rl_skip f)) ls) p) = true) /\
+  tro_loop false fidx cidx ls cols <> Err EPanic.
+Proof.
+  induction ls as [|l ls IH]; intros fidx cidx cols Hlen.
+  - destruct cols; [|discriminate]. cbn. split; [|discriminate]. split; [|reflexivity]. intros _. exists []. split; reflexivity.
+  - cbn [tro_loop filter] in *. destruct (rl_skip l) eqn:Sl; cbn [negb] in *; [now apply IH|].
+    cbn [List.length map names_prefix] in *. destruct cols as [|[n ty] cols]; [discriminate|].
+    cbn [negb andb]. destruct (String.eqb n (rl_name l)) eqn:E; cbn [negb].
+    + destruct (accepts (rl_ty l) ty) eqn:A.
+      * destruct (IH (S fidx) (S cidx) cols ltac:(cbn in Hlen; congruence)) as [I1 I2]. split; [|assumption].
+        rewrite I1. split.
+        -- intros (p & N & F). exists ((n, ty) :: p). rewrite N. split; [reflexivity|].
+           cbn [combine forallb]. unfold racc_pair at 1. cbn [fst snd]. now rewrite A, F.
+        -- intros (p & N & F). destruct (names_prefix _ cols) as [[p' r']|]; [|discriminate].
+           injection N as <- ->. exists p'. split; [reflexivity|]. cbn [combine forallb] in F.
+           now apply andb_true_iff in F as [_ F].
+      * split; [|discriminate]. split; [discriminate|]. intros (p & N & F).
+        destruct (names_prefix _ cols) as [[p' r']|]; [|discriminate]. injection N as <- ->.
+        cbn [combine forallb] in F. unfold racc_pair at 1 in F. cbn [fst snd] in F. rewrite A in F. discriminate.
+    + split; [|discriminate]. split; [discriminate|]. intros (p & N & F). discriminate.
+Qed.
+
+Theorem typeck_row_ordered_doc ls cols :
+  (gen_typeck_row_ordered false ls cols = Ok tt <-> doc_typeck_row_ordered ls cols = true) /\
+  gen_typeck_row_ordered false ls cols <> Err EPanic.
+Proof.
+  unfold gen_typeck_row_ordered, doc_typeck_row_ordered. cbv zeta.
+  set (nls := filter (fun f => negb (rl_skip f)) ls).
+  change (fun lc : rleaf * (string * dty) => accepts (rl_ty (fst lc)) (snd (snd lc))) with racc_pair.
+  destruct (List.length cols =? List.length nls)%nat eqn:L.
+  - apply Nat.eqb_eq in L. destruct (tro_plain ls O O cols L) as [T P]. fold nls in T. split; [|assumption].
+    rewrite T. split.
+    + intros (p & -> & F). exact F.
+    + destruct (names_prefix (map rl_name nls) cols) as [[p [|x r]]|]; try discriminate. intros F. now exists p.
+  - split; [|discriminate]. split; [discriminate|].
+    destruct (names_prefix (map rl_name nls) cols) as [[p [|x r]]|] eqn:N; try discriminate.
+    intros _. exfalso. destruct (names_prefix_spec _ _ _ _ N) as [E1 E2]. apply Nat.eqb_neq in L. apply L.
+    rewrite E1, app_nil_r, <- (map_length rl_name nls), <- E2. now rewrite map_length.
+Qed.
+
+(* round trip, enforce_order, rows (any skip_name_checks) *)
+Lemma ro_lockstep snc ls : forallb (fun l => val_ok (rl_ty l) (rl_val l)) ls = true ->
+  forall cols out out' rest,
+  in_order_fields (in_order_field snc) (map RLeaf ls) cols out = Ok (out', rest) ->
+  exists cs, out' = out ++ cs /\
+    forall fidx tl, dro_loop snc fidx ls (combine cols (cs ++ tl)) = Ok (map rback_value ls).
+Proof.
+  induction ls as [|l ls IH]; intros Hv cols out out' rest H.
+  - cbn in H. injection H as <- <-. exists []. split; [now rewrite app_nil_r|]. reflexivity.
+  - cbn [forallb] in Hv. apply andb_true_iff in Hv as [Hvl Hv].
+    cbn [map in_order_fields rf_skip] in H. cbn [dro_loop map]. unfold rback_value at 1.
+    destruct (rl_skip l) eqn:Sl.
+    + destruct (IH Hv _ _ _ _ H) as (cs & -> & D). exists cs. split; [reflexivity|]. intros fidx tl. now rewrite D.
+    + cbn [in_order_field] in H. destruct cols as [|[n ty] cols]; [discriminate|].
+      destruct (negb snc && negb (String.eqb n (rl_name l))) eqn:NC; [discriminate|].
+      destruct (ser_field (rl_ty l) (rl_val l) ty) as [cl|] eqn:SF; [|discriminate].
+      apply ser_field_some in SF. subst cl.
+      destruct (IH Hv _ _ _ _ H) as (cs & -> & D). exists (rl_val l :: cs). split; [now rewrite <- app_assoc|].
+      intros fidx tl. cbn [app combine]. rewrite NC, rdeser_back by assumption. now rewrite D.
+Qed.
+
+Theorem roundtrip_row_ordered d ls cols cells : leaves_only (rd_fields d) = Some ls ->
+  forallb (fun l => val_ok (rl_ty l) (rl_val l)) ls = true ->
+  gen_ser_row_ordered d cols = Ok cells ->
+  gen_deser_row_ordered (rd_snc d) ls cols cells = Ok (map rback_value ls).
+Proof.
+  intros LO Hv H. unfold gen_ser_row_ordered in H. cbn [in_order_field] in H.
+  assert (E : rd_fields d = map RLeaf ls).
+  { clear -LO. revert ls LO. induction (rd_fields d) as [|f fs IH]; intros ls LO; cbn [leaves_only] in LO.
+    - now injection LO as <-.
+    - destruct f as [l|]; [|discriminate]. destruct (leaves_only fs) as [ls'|]; [|discriminate].
+      injection LO as <-. cbn [map]. f_equal. now apply IH. }
+  rewrite E in H.
+  destruct (in_order_fields (in_order_field (rd_snc d)) (map RLeaf ls) cols []) as [[out rest]|e] eqn:S; [|discriminate].
+  destruct rest as [|[n t] rest]; [|discriminate]. injection H as ->.
+  destruct (ro_lockstep _ _ Hv _ _ _ _ S) as (cs & -> & D). cbn [app].
+  unfold gen_deser_row_ordered. specialize (D O []). now rewrite app_nil_r in D.
+Qed.
+(* "accepts exactly the declared order", spelled out *)
+Theorem ordered_exact_value d db : vordered_plain d = true ->
+  (gen_typeck_value_ordered d db = Ok tt <->
+   exists p rest, db = p ++ rest /\ map fst p = map vf_name (nonskipped (vd_fields d)) /\
+                  (vd_forbid d = true -> rest = []) /\
+                  forallb acc_pair (combine (nonskipped (vd_fields d)) p) = true).
+Proof.
+  intros HP. rewrite (typeck_value_ordered_doc d db HP), doc_typeck_value_ordered_eq. split.
+  - destruct (names_prefix _ db) as [[p rest]|] eqn:N; [|discriminate]. intros H.
+    apply andb_true_iff in H as [H1 H2]. destruct (names_prefix_spec _ _ _ _ N) as [E1 E2].
+    exists p, rest. repeat split; try assumption. intros Fb. rewrite Fb in H1. cbn [negb orb] in H1.
+    now destruct rest.
+  - intros (p & rest & -> & E & Fb & Acc). rewrite <- E, names_prefix_complete, Acc, andb_true_r.
+    destruct (vd_forbid d); [|reflexivity]. now rewrite (Fb eq_refl).
+Qed.
+
+Theorem ordered_exact_row ls cols :
+  (gen_typeck_row_ordered false ls cols = Ok tt <->
+   map fst cols = map rl_name (filter (fun f => negb (rl_skip f)) ls) /\
+   forallb racc_pair (combine (filter (fun f => negb (rl_skip f)) ls) cols) = true).
+Proof.
+  rewrite (proj1 (typeck_row_ordered_doc ls cols)). unfold doc_typeck_row_ordered. cbv zeta.
+  change (fun lc : rleaf * (string * dty) => accepts (rl_ty (fst lc)) (snd (snd lc))) with racc_pair.
+  set (nls := filter (fun f => negb (rl_skip f)) ls). split.
+  - destruct (names_prefix (map rl_name nls) cols) as [[p [|x r]]|] eqn:N; try discriminate. intros H.
+    destruct (names_prefix_spec _ _ _ _ N) as [E1 E2]. rewrite app_nil_r in E1. subst p. tauto.
+  - intros [E Acc]. rewrite <- E. rewrite <- (app_nil_r cols) at 2. rewrite names_prefix_complete. exact Acc.
+Qed.
